@@ -24,6 +24,50 @@ int main(void) {
             if (!mathv_dispatch(t[1], t[2], na, a)) {
                 printf("bad-op\n");
             }
+        } else if (!strcmp(t[0], "addv") && n >= 2) {
+            /* addv <num> <a1> ... : aws_add_size_checked_varargs(num, &r, a1, ...) from source/math.c; every listed
+             * argument is passed (there may be more than num: the surplus must not contribute) */
+            unsigned long long a[10];
+            int na = n - 2;
+            unsigned long long num = hc_parse_u64(t[1]);
+            if (na > 10 || num > (unsigned long long)na) {
+                printf("bad-op\n");
+                continue;
+            }
+            for (int i = 0; i < na; ++i) {
+                a[i] = hc_parse_u64(t[2 + i]);
+            }
+            size_t out = (size_t)0xDEADBEEFDEADBEEFULL;
+            int rc = 0;
+            aws_reset_error();
+#define A(i) ((size_t)a[i])
+            switch (na) {
+                case 0: rc = aws_add_size_checked_varargs((size_t)num, &out); break;
+                case 1: rc = aws_add_size_checked_varargs((size_t)num, &out, A(0)); break;
+                case 2: rc = aws_add_size_checked_varargs((size_t)num, &out, A(0), A(1)); break;
+                case 3: rc = aws_add_size_checked_varargs((size_t)num, &out, A(0), A(1), A(2)); break;
+                case 4: rc = aws_add_size_checked_varargs((size_t)num, &out, A(0), A(1), A(2), A(3)); break;
+                case 5: rc = aws_add_size_checked_varargs((size_t)num, &out, A(0), A(1), A(2), A(3), A(4)); break;
+                case 6: rc = aws_add_size_checked_varargs((size_t)num, &out, A(0), A(1), A(2), A(3), A(4), A(5)); break;
+                case 7: rc = aws_add_size_checked_varargs((size_t)num, &out, A(0), A(1), A(2), A(3), A(4), A(5), A(6)); break;
+                case 8:
+                    rc = aws_add_size_checked_varargs((size_t)num, &out, A(0), A(1), A(2), A(3), A(4), A(5), A(6), A(7));
+                    break;
+                case 9:
+                    rc = aws_add_size_checked_varargs(
+                        (size_t)num, &out, A(0), A(1), A(2), A(3), A(4), A(5), A(6), A(7), A(8));
+                    break;
+                default:
+                    rc = aws_add_size_checked_varargs(
+                        (size_t)num, &out, A(0), A(1), A(2), A(3), A(4), A(5), A(6), A(7), A(8), A(9));
+                    break;
+            }
+#undef A
+            if (rc == 0) {
+                printf("P ok %llu\n", (unsigned long long)out);
+            } else {
+                printf("P err %d\n", aws_last_error());
+            }
         } else {
             printf("bad-op\n");
         }
